@@ -17,8 +17,8 @@ linked (`Ref.To == nil`).
 * `linkFuel` — `lib/j5schema/schema_set.go` `assertRefsLink`: the same traversal with a `seen` set,
   failing on the first unlinked reference.
 
-Not mirrored: `ClientProperties()` flattening (`asClient` with `flatten` object fields) — the
-generators never flatten.
+`ClientProperties()` flattening (`asClient` with `flatten` object fields) is in `Flatten.lean`: the
+client view of a schema set is again a graph (`clientGraph`), and the walks here run on it.
 -/
 namespace J5V.Pipe
 open J5V.Compile J5V.Go
@@ -37,11 +37,13 @@ inductive RootKind where
   deriving Repr, DecidableEq
 
 /-- `tag` stands for whatever else the property carries and the callback looks at (its list
-rules); the walks never inspect it. -/
+rules); the walks never inspect it. `flat` = the object field is marked `flatten`
+(`ObjectField.Flatten`): only `ClientProperties()` (`J5V.Pipe.clientProps`, `Flatten.lean`) looks at it. -/
 structure Prop' where
   name : Str
   field : Field
   tag : Nat := 0
+  flat : Bool := false
   deriving Repr, DecidableEq
 
 structure Node where
